@@ -1,6 +1,6 @@
 """C09/C10/C11 facts: LB_Keogh envelope range, Euclidean distance shape, band laws, point distances, n-D siblings."""
 from ..cfront import AnalysisError
-from ..ir import fmt, walk_stmts, walk_expr, stmt_exprs, dotted
+from ..ir import fmt, walk_stmts, walk_expr, stmt_exprs, dotted, aug_rhs
 from .. import sym, kernels
 from ..sym import var as V, const as C, add, sub, tmin, tmax
 from ..symexec import Exec, Env, subst_expr, norm_minmax, assigned_vars
@@ -420,7 +420,7 @@ def rule_point_distance(ctx, m, ks):
             if s.k == 'assign' and s.target[0] == 'var' and s.target[1].split('#')[0] == 'd':
                 v = s.value
                 if s.d.get('aug') == '+':
-                    v = v[3]
+                    v = aug_rhs(s)
                 if v == ('num', 0):
                     continue
                 found += 1
